@@ -32,7 +32,21 @@ def extra_fieldset():
     return _EXTRA['fs']
 
 
-def make_traj(k, identified, kind='good'):
+def assoc_fieldset():
+    """A registered field set kept in an ASSOCIATED file by the 'assoc' layout: one per-point field and
+    one species-indexed field."""
+    if 'afs' not in _EXTRA:
+        from AEIC.storage import Dimensions, FieldMetadata, FieldSet
+
+        _EXTRA['afs'] = FieldSet(
+            'vf_hist_assoc',
+            ap=FieldMetadata(description='assoc pointwise', units='u'),
+            asp=FieldMetadata(dimensions=Dimensions.from_abbrev('TS'), description='assoc per species', units='g'),
+        )
+    return _EXTRA['afs']
+
+
+def make_traj(k, identified, kind='good', layout='single'):
     """Trajectory number k (k = number of add attempts so far): every value encodes k."""
     from AEIC.trajectories.trajectory import Trajectory
 
@@ -64,6 +78,15 @@ def make_traj(k, identified, kind='good'):
         t.flight_id = IDS[k % len(IDS)] + 100 * (k // len(IDS))
     if kind == 'bad_missing':
         t._data['starting_mass'] = None  # a required per-trajectory value is missing
+    if layout == 'assoc':
+        from AEIC.types import Species, SpeciesValues
+
+        t.add_fields(assoc_fieldset())
+        t.ap = 5000.0 + k + np.arange(NPTS) * 0.125
+        sp = {Species.CO2: 70.0 + k}
+        if kind == 'bad_species':
+            sp[Species.NOx] = 1.0  # a species the associated file has no slot for
+        t.asp = SpeciesValues(sp)
     return t
 
 
@@ -78,6 +101,13 @@ def marker(traj):
             return ('bad-array', k)
         if float(traj.total_fuel_mass) != base + 0.5:
             return ('bad-scalar', k)
+        if 'ap' in traj._data:
+            from AEIC.types import Species
+
+            if not np.array_equal(np.asarray(traj.ap), 5000.0 + k + np.arange(NPTS) * 0.125):
+                return ('bad-assoc-array', k)
+            if set(traj.asp.keys()) != {Species.CO2} or float(traj.asp[Species.CO2]) != 70.0 + k:
+                return ('bad-assoc-species', k)
         return k
     except Exception as ex:  # noqa: BLE001
         return ('unreadable', type(ex).__name__)
@@ -92,6 +122,9 @@ ALPHABETS = {
     'c07': ['create_file:S', 'create_file:L', 'create_mem:S', 'create_mem:L', 'add', 'read:0', 'read:mid',
             'read:last', 'read:end', 'iter', 'len', 'sync', 'close', 'append:S', 'append:L', 'open:S',
             'open:L', 'save'],
+    # C07 with every trajectory split over a base and an associated file (+ species-rejected additions)
+    'c07a': ['create_file:S', 'create_file:L', 'add', 'add_bad_species', 'read:0', 'read:last', 'read:end', 'iter', 'sync', 'close',
+             'append:S', 'append:L', 'open:S'],
     'c07q': ['create_file:S', 'create_mem:S', 'create_file:L', 'add', 'read:0', 'read:last', 'read:end',
              'iter', 'sync', 'close', 'append:S', 'append:L', 'open:S', 'save'],
     # C08: identified store, dict model
@@ -110,11 +143,11 @@ ALPHABETS = {
 
 
 class StoreDriver:
-    def __init__(self, alphabet, identified, max_traj, max_sessions=4):
+    def __init__(self, alphabet, identified, max_traj, layout='single'):
+        self.layout = layout if layout in ('single', 'assoc') else 'single'
         self.alphabet = ALPHABETS[alphabet]
         self.identified = bool(identified)
         self.max_traj = int(max_traj)
-        self.max_sessions = int(max_sessions)
 
     # ---------------------------------------------------------------- model
     @staticmethod
@@ -132,6 +165,9 @@ class StoreDriver:
                 ok = s is None and m['file'] is None
             elif op in ('append', 'open'):
                 ok = s is None and m['file'] is not None
+            elif op == 'add_bad_species':
+                # only once the files (and so their species dimensions) exist
+                ok = s is not None and s['written'] and s['mode'] != 'mem' and len(s['items']) > 0
             elif op in ('add', 'add_bad_missing', 'add_bad_fieldset', 'add_bad_ident'):
                 ok = s is not None and (op == 'add_bad_missing' or m['added'] < self.max_traj)
             elif op == 'save':
@@ -235,8 +271,10 @@ class StoreDriver:
 
         TrajectoryStore.active_in_thread = None
         extra_fieldset()  # must be registered before a file containing it is opened
+        assoc_fieldset()
         tmp = Path(tempfile.mkdtemp(prefix='vf_hist_'))
         path = tmp / 'a.nc'
+        self._apath = tmp / 'a_assoc.nc'
         store = None
         m = self.initial()
         vio = []
@@ -295,14 +333,16 @@ class StoreDriver:
         op, _, arg = ev.partition(':')
         cache = {'S': TINY, 'L': LARGE}.get(arg)
         try:
+            akw = {'associated_files': [self._apath]} if self.layout == 'assoc' else {}
+            ckw = {'associated_files': [(self._apath, ['vf_hist_assoc'])]} if self.layout == 'assoc' else {}
             if op == 'create_file':
-                return ('ok', None), TrajectoryStore.create(base_file=path, cache_size_mb=cache)
+                return ('ok', None), TrajectoryStore.create(base_file=path, cache_size_mb=cache, **ckw)
             if op == 'create_mem':
                 return ('ok', None), TrajectoryStore.create(cache_size_mb=cache)
             if op == 'append':
-                return ('ok', None), TrajectoryStore.append(base_file=path, cache_size_mb=cache)
+                return ('ok', None), TrajectoryStore.append(base_file=path, cache_size_mb=cache, **akw)
             if op == 'open':
-                return ('ok', None), TrajectoryStore.open(base_file=path, cache_size_mb=cache)
+                return ('ok', None), TrajectoryStore.open(base_file=path, cache_size_mb=cache, **akw)
             if op == 'add' or op.startswith('add_bad'):
                 kind = 'good' if op == 'add' else op[4:]
                 accepted = self.step_model(m, ev)[1][0] == 'ok'
@@ -310,10 +350,10 @@ class StoreDriver:
                 if kind == 'bad_missing' and m['session']['kind'] is not None:
                     # a missing required value in a trajectory that otherwise fits the store
                     sk = m['session']['kind']
-                    t = make_traj(k, sk[0], 'bad_fieldset' if sk[1] == 'extra' else 'good')
+                    t = make_traj(k, sk[0], 'bad_fieldset' if sk[1] == 'extra' else 'good', self.layout)
                     t._data['starting_mass'] = None
                 else:
-                    t = make_traj(k, self.identified, kind)
+                    t = make_traj(k, self.identified, kind, self.layout)
                 return ('ok', store.add(t)), store
             if op == 'read':
                 n = len(m['session']['items'])
@@ -332,7 +372,7 @@ class StoreDriver:
                 store.close()
                 return ('ok', None), None
             if op == 'save':
-                store.save(path)
+                store.save(path, **ckw)
                 return ('ok', None), store
             if op == 'get':
                 items = m['session']['items']
@@ -367,7 +407,8 @@ class StoreDriver:
                     vio.append(V('observe:file-exists-unexpectedly', f'history {history}: file present, model has none'))
                 return vio
             try:
-                store = TrajectoryStore.open(base_file=path, cache_size_mb=LARGE)
+                store = TrajectoryStore.open(base_file=path, cache_size_mb=LARGE,
+                                             **({'associated_files': [self._apath]} if self.layout == 'assoc' else {}))
                 opened_here = True
             except Exception as ex:  # noqa: BLE001
                 return [V('observe:reopen-failed', f'history {history}: reopen for reading raised {type(ex).__name__}: {ex}')]
@@ -480,5 +521,5 @@ def _summ(v, depth):
     return [type(v).__name__]
 
 
-def driver(alphabet, identified, max_traj, max_sessions=4):
-    return StoreDriver(alphabet, identified, max_traj, max_sessions)
+def driver(alphabet, identified, max_traj, layout='single'):
+    return StoreDriver(alphabet, identified, max_traj, layout)
